@@ -486,6 +486,88 @@ def _renumber(x, off_l, off_b):
     return out
 
 
+def _thread_result_returns(j, cj, off_b, off_l, call_t):
+    """Path sensitivity across an inlined call.  When an inlined return block is known to produce Result::Ok / Result::Err
+    (it assigns that aggregate to the callee's return place) and the caller immediately branches on the result - `?`
+    (Try::branch followed by the ControlFlow switch) or a match on its discriminant - the return block is redirected to
+    a copy of that continuation in which the switch is replaced by the edge that variant takes.  Without this a helper
+    returning `Err(..)` would, in the merged CFG, appear to flow into the caller's success path as well."""
+    blocks = j['blocks']
+    dest = call_t.get('dest') or {}
+    if dest.get('p'):
+        return
+    dl = dest.get('l')
+    T = call_t.get('target')
+    if dl is None or T is None or T >= len(blocks):
+        return
+    ret_local = off_l   # callee _0
+
+    def variant_of(stmts):
+        v = None
+        for st in stmts:
+            if 'assign' in st and st['assign'].get('l') == ret_local and not st['assign'].get('p'):
+                rv = st['rv']
+                v = rv.get('variant') if rv.get('k') == 'agg' and rv.get('adt') == 'core::result::Result' else None
+        return v if v in ('Ok', 'Err') else None
+
+    def thread(block_obj, variant):
+        """block_obj ends with `dest = move ret; goto T`: send it to a continuation specialised for `variant`"""
+        tb = blocks[T]
+        tt = tb['term']
+        if tt.get('k') == 'call' and (tt.get('callee') or '').endswith('Try::branch') and tt.get('args') and \
+                (tt['args'][0].get('move') or tt['args'][0].get('copy') or {}).get('l') == dl and 'target' in tt:
+            sb = blocks[tt['target']]
+            st_ = sb['term']
+            if st_.get('k') != 'switch':
+                return
+            want = 0 if variant == 'Ok' else 1          # ControlFlow: Continue = 0, Break = 1
+            tg = [x['bb'] for x in st_.get('targets', []) if x['v'] == want]
+            edge = tg[0] if tg else st_.get('otherwise')
+            s2 = json.loads(json.dumps(sb))
+            s2['term'] = {'k': 'goto', 'target': edge, 'span': st_.get('span'), 'threaded': variant}
+            t2 = json.loads(json.dumps(tb))
+            t2['term']['target'] = len(blocks) + 1
+            block_obj['term']['target'] = len(blocks)
+            blocks.extend([t2, s2])
+        elif tt.get('k') == 'switch':
+            op = tt.get('op') or {}
+            pl = op.get('move') or op.get('copy') or {}
+            isd = [x for x in tb['stmts'] if 'assign' in x and x['assign'].get('l') == pl.get('l') and x['rv'].get('k') == 'discr' and
+                   x['rv'].get('adt') == 'core::result::Result' and x['rv']['place'].get('l') == dl and not x['rv']['place'].get('p')]
+            if not isd:
+                return
+            want = 0 if variant == 'Ok' else 1
+            tg = [x['bb'] for x in tt.get('targets', []) if x['v'] == want]
+            edge = tg[0] if tg else tt.get('otherwise')
+            t2 = json.loads(json.dumps(tb))
+            t2['term'] = {'k': 'goto', 'target': edge, 'span': tt.get('span'), 'threaded': variant}
+            block_obj['term']['target'] = len(blocks)
+            blocks.append(t2)
+
+    for ci, cblk in enumerate(cj):
+        term = cblk['term']
+        if term.get('k') != 'goto' or term.get('target') != T or not cblk['stmts']:
+            continue
+        last = cblk['stmts'][-1]
+        if not ('assign' in last and last['assign'].get('l') == dl and last['rv'].get('k') == 'use'):
+            continue
+        v = variant_of(cblk['stmts'][:-1])
+        if v:
+            thread(cblk, v)
+            continue
+        # the usual shape: `P: _0 = Err(..); goto R` for several P, `R: return`: give each such P its own copy of R
+        for pblk in cj:
+            pt = pblk['term']
+            if pblk is cblk or pt.get('k') != 'goto' or pt.get('target') != off_b + ci:
+                continue
+            pv = variant_of(pblk['stmts'])
+            if pv:
+                r2 = json.loads(json.dumps(cblk))
+                pt['target'] = len(blocks)
+                blocks.append(r2)
+                thread(r2, pv)
+
+
 def inline_helpers(body, is_helper, depth=2, max_blocks=400):
     """A copy of `body` in which every call to a crate-local function accepted by `is_helper(callee_body)` is replaced
     by the callee's own blocks (arguments assigned to the callee's parameters, its return value assigned to the call's
@@ -531,6 +613,7 @@ def inline_helpers(body, is_helper, depth=2, max_blocks=400):
             work.append(off_b + ci)
         blk['term'] = {'k': 'goto', 'target': off_b, 'span': sp, 'inlined_call': cb.id}
         changed = True
+        _thread_result_returns(j, cj, off_b, off_l, t)
     if not changed:
         return body
     nb = Body(facts, j)
@@ -732,6 +815,43 @@ class Facts:
             # closures in different impls can share def_path_str only if identical; keep first, list all
             self.bodies.setdefault(bd.id, bd)
             self.body_list.append(bd)
+        self.inlined_helpers = self._inline_new_helpers()
+
+    def _inline_new_helpers(self):
+        """Hoist-proofing.  A non-public function that did not exist on the reviewed tree (not in tables/private_fns.json,
+        after rename aliasing) is treated as part of its callers: its blocks are spliced into every caller before any
+        rule runs, so `extract function` does not move code out of a rule's sight.  On the reviewed tree there is no such
+        function and nothing changes."""
+        tab = _fn_table().get(self.crate)
+        if not tab:
+            return []
+        new = set()
+        for path, fn in self.fns.items():
+            if fn.get('vis') != 'pub' and '{' not in path and path not in tab and path in self.bodies:
+                b = self.bodies[path]
+                if b.j.get('kind') != 'closure' and not b.j.get('impl_trait'):
+                    new.add(path)
+        if not new:
+            return []
+        for i, b in enumerate(list(self.body_list)):
+            if any((blk['term'].get('resolved') or blk['term'].get('callee')) in new for blk in b.blocks if blk['term'].get('k') == 'call'):
+                nb = inline_helpers(b, lambda cb: cb.id in new, depth=3)
+                if nb is not b:
+                    self.body_list[i] = nb
+                    if self.bodies.get(b.id) is b:
+                        self.bodies[b.id] = nb
+        # a helper that is now part of all its callers is no longer a function of its own for the inventories
+        still_called = set()
+        for b in self.body_list:
+            for blk in b.blocks:
+                t = blk['term']
+                if t.get('k') == 'call':
+                    c = t.get('resolved') or t.get('callee')
+                    if c in new and b.id != c and not b.id.startswith(c + '::{'):
+                        still_called.add(c)
+        gone = new - still_called
+        self.body_list = [b for b in self.body_list if not (b.id in gone or any(b.id.startswith(g + '::{') for g in gone))]
+        return sorted(new)
 
     _EXT = {
         'core::option::Option': {0: 'None', 1: 'Some'},
